@@ -539,6 +539,17 @@ func (b *Builder) AllComparisonSeries(existing []*ComparisonSeries, dupeHow int)
 						Values:   concat(cc.Numerator.Values, cell.Values),
 						Residues: union(cc.Numerator.Residues, cell.Residues),
 					}
+					if cc.Denominator == nil || tr.baseline == nil {
+						// One of the two experiments has no baseline
+						// measurements, so there is nothing to concatenate.
+						if cc.Denominator == nil {
+							cc.Denominator = tr.baseline
+						}
+						if cc.Date < dateString {
+							cc.Date = dateString
+						}
+						continue
+					}
 					cc.Denominator = &Cell{
 						Values:   concat(cc.Denominator.Values, tr.baseline.Values),
 						Residues: union(cc.Denominator.Residues, tr.baseline.Residues),
